@@ -637,3 +637,131 @@ def nontrivial(case, outs):
 
 def features(case, outs):
     return KIND[case["session"]]["features"](case, outs)
+
+
+# ============================================================================ kind: text  (TextIndex, Okapi and
+# cosine back ends) -- self-contained block: wraps gen / impl_run / model_cmd / features / nontrivial
+# Model: lean/HypatiaModel/TextIndex.lean, theorems: HypatiaProofs/Properties/C06Text.lean, session `text`.
+# Mutation sanity check of this kind (scratch copies, VERIF_REPO=/var/tmp/mut_text_N, deleted afterwards), all
+# reported VIOLATION with a replay on seed 0:
+#   T1 baseindex._del_wordinfo: `self.word_count.change(-1)` dropped              (word_count drifts after the last
+#      document with a word goes away)
+#   T2 TextIndex.index_doc: the `self._not_indexed.remove(docid)` branch dropped   (no-value -> text: id stays in
+#      not_indexed, indexed and not_indexed overlap)
+#   T3 baseindex.unindex_doc: `self.indexed_count.change(-1)` dropped
+#   T4 baseindex._add_wordinfo: `self.word_count.change(1)` dropped               (only the re-index path uses it:
+#      needs a re-index that brings a word no posting has)
+#   T5 TextIndex.reset: `self._not_indexed = ...TreeSet()` dropped
+#   T6 TextIndex.unindex_doc: `_not_indexed.remove(docid)` dropped
+c03 = importlib.import_module("props.c03")
+AUDIT_IMPORTS.append("HypatiaProofs.Properties.C06Text")
+THEOREMS += ["Hyp.Text." + t for t in (
+    "c06_text_bookkeeping", "c06_text_totaldoclen", "c06_text_history_independent", "c06_text_fresh",
+    "c06_text_reindex", "c06_text_unindex_unknown", "c06_text_unindex_erases", "c06_text_reset")]
+TEXT_KIND = "text"         # not appended to KINDS: the generator above picks its session from that list
+TEXT_WORDS = ["apple", "app", "bat", "cat", "dog", "x1", "café", "zed", "the", "to"]
+
+
+def gen_text_kind(rng, tier):
+    pl = rng.choice(["default"] * 3 + ["nostop", "single", "html"])
+    backend = rng.choice(["okapi", "cosine"])
+    fam = rng.choice(["32", "64"])
+    ids = list(range(8)) + [2 ** 31 - 1, -2 ** 31]
+    if rng.random() < 0.6:
+        ids = ids[:rng.randrange(2, 7)]
+    words = rng.sample(TEXT_WORDS, rng.randrange(2, 8))
+    stops = c03.c15.stops()
+    maxlen = 30 if tier == "quick" or rng.random() < 0.9 else 150
+    cmds = []
+    texts = {}
+    for _ in range(rng.randrange(4, maxlen)):
+        r = rng.random()
+        d = rng.choice(ids)
+        if r < 0.04:
+            cmds.append(["reset"])
+            texts = {}
+        elif r < 0.2:
+            cmds.append(["unindex", d])
+            texts.pop(d, None)
+        elif r < 0.38:
+            cmds.append(["tindex", d, "n"])
+            texts.pop(d, None)
+        elif r < 0.5 and d in texts:
+            cmds.append(["tindex", d] + texts[d])              # identical content again
+        else:
+            toks = [rng.choice(words) for _ in range(rng.choice([0, 1, 1, 2, 3, 5, 8]))]
+            if d in texts and rng.random() < 0.4:
+                toks = toks[:1]                                 # shrink: words disappear from the index
+            t = c03.gen_textarg(rng, toks, stops)
+            cmds.append(["tindex", d] + t)
+            texts[d] = t
+        cmds.append(["obs"])
+        if rng.random() < 0.3:
+            cmds.append(["obsfresh"])
+        if rng.random() < 0.5:
+            cmds.append(["repr", d])
+        if rng.random() < 0.2:
+            cmds.append(["repr", rng.choice(ids)])
+    cmds.append(["obsfresh"])
+    case = c03.make_case(c03.PIPELINES[pl], backend, fam, "small",
+                         [(["index"] + c[1:]) if c[0] == "tindex" else c for c in cmds])
+    case["cmds"] = cmds
+    return case
+
+
+_gen_other_kinds = gen
+
+
+def gen(rng, tier, idx):                                        # noqa: F811
+    if rng.random() < 1.0 / (len(KINDS) + 1):
+        return gen_text_kind(rng, tier)
+    return _gen_other_kinds(rng, tier, idx)
+
+
+_model_cmd_other_kinds = model_cmd
+
+
+def model_cmd(c):                                               # noqa: F811
+    if c[0] == "tindex":
+        return c03.model_cmd(["index"] + list(c[1:]))
+    return _model_cmd_other_kinds(c)
+
+
+_impl_run_other_kinds = impl_run
+
+
+def impl_run(hyp, case):                                        # noqa: F811
+    if case["session"] == "text":
+        im = c03.Impl(c03.cfgdict(case))
+        return [im.run((["index"] + list(c[1:])) if c[0] == "tindex" else c) for c in case["cmds"]]
+    return _impl_run_other_kinds(hyp, case)
+
+
+_features_other_kinds = features
+
+
+def features(case, outs):                                       # noqa: F811
+    if case["session"] != "text":
+        return _features_other_kinds(case, outs)
+    cd = c03.cfgdict(case)
+    f = ["kind:text", "text:backend:" + cd.get("backend", "?"), "text:family:" + cd.get("family", "?")]
+    last = {}
+    for c, o in zip(case["cmds"], outs):
+        if c[0] == "tindex":
+            prev = last.get(c[1], "unknown")
+            now = "none" if c[2] == "n" else "text"
+            f.append("text:index:%s->%s%s" % (prev if prev in ("unknown", "none") else "text", now,
+                                              "(same)" if prev == tuple(c[2:]) and now == "text" else ""))
+            last[c[1]] = "none" if c[2] == "n" else tuple(c[2:])
+        elif c[0] == "unindex":
+            f.append("text:unindex:" + ("known" if c[1] in last else "unknown"))
+            last.pop(c[1], None)
+        elif c[0] == "reset":
+            last = {}
+            f.append("text:reset")
+        elif c[0] == "repr":
+            f.append("text:repr:" + ("default" if o == "none" else "words"))
+        if isinstance(o, str) and o.startswith("err"):
+            f.append("text:" + o)
+    return f
+# ============================================================================ end of kind: text
